@@ -956,3 +956,23 @@ MUTANTS["C13"] += [
     M("count_needs_both_flags", FE, '[instr.flags for instr in kernel if INSTR_FLAGS.TP_UNKWN in instr.flags]', "[instr.flags for instr in kernel if {INSTR_FLAGS.TP_UNKWN, INSTR_FLAGS.LT_UNKWN}.issubset(instr.flags)]", "R3", "round 5: lines with TP_UNKWN only are marked X but not counted"),
     M("dict_warning_needs_latency_flag", FE, "        if INSTR_FLAGS.TP_UNKWN in [flag for instr in kernel for flag in instr.flags]:\n            warnings.append(\"UnknownInstrWarning\")", "        if any(INSTR_FLAGS.TP_UNKWN in instr.flags and INSTR_FLAGS.LT_UNKWN in instr.flags for instr in kernel):\n            warnings.append(\"UnknownInstrWarning\")", "R3"),
 ]
+
+MUTANTS["C02"] += [
+    M("totals_round_each_line_first", ARCH, "        tp_sum = [round(sum(col), 2) for col in zip(*port_pressures)]", "        tp_sum = [round(sum(round(v, 2) for v in col), 2) for col in zip(*port_pressures)]", "P2", "round 5: per-line rounding losses accumulate, the bottleneck undercuts the optimum"),
+]
+
+MUTANTS["C03"] += [
+    M("address_register_helper_needs_base", KDG, ['                if src.base is not None:\n                    is_read = self.parser.is_reg_dependend_of(register, src.base) or is_read\n                if src.index is not None and isinstance(src.index, RegisterOperand):\n                    is_read = self.parser.is_reg_dependend_of(register, src.index) or is_read\n', '                if dst.base is not None:\n                    is_read = self.parser.is_reg_dependend_of(register, dst.base) or is_read\n                if dst.index is not None:\n                    is_read = self.parser.is_reg_dependend_of(register, dst.index) or is_read\n        return is_read\n'], ['                is_read = self._is_address_register(register, src) or is_read\n', '                is_read = self._is_address_register(register, dst) or is_read\n        return is_read\n\n    def _is_address_register(self, register, mem):\n        """Check if memory operand ``mem`` uses ``register`` for its address computation"""\n        if mem.base is None:\n            return False\n        if self.parser.is_reg_dependend_of(register, mem.base):\n            return True\n        return isinstance(mem.index, RegisterOperand) and self.parser.is_reg_dependend_of(\n            register, mem.index\n        )\n'], "R4", "round 5: the index of a base-less operand is no longer read"),
+    M("address_register_helper_correct_is_fine", KDG, ['                if src.base is not None:\n                    is_read = self.parser.is_reg_dependend_of(register, src.base) or is_read\n                if src.index is not None and isinstance(src.index, RegisterOperand):\n                    is_read = self.parser.is_reg_dependend_of(register, src.index) or is_read\n', '                if dst.base is not None:\n                    is_read = self.parser.is_reg_dependend_of(register, dst.base) or is_read\n                if dst.index is not None:\n                    is_read = self.parser.is_reg_dependend_of(register, dst.index) or is_read\n        return is_read\n'], ['                is_read = self._is_address_register(register, src) or is_read\n', '                is_read = self._is_address_register(register, dst) or is_read\n        return is_read\n\n    def _is_address_register(self, register, mem):\n        """Check if memory operand ``mem`` uses ``register`` for its address computation"""\n        if mem.base is not None and self.parser.is_reg_dependend_of(register, mem.base):\n            return True\n        return isinstance(mem.index, RegisterOperand) and self.parser.is_reg_dependend_of(\n            register, mem.index\n        )\n'], "SILENT", "base and index still consulted independently"),
+]
+
+MUTANTS["C04"] += [
+    M("critical_path_memoised", KDG, ['        """Find and return critical path after the creation of a directed graph."""\n', '            return [x for x in self.kernel if x.line_number in longest_path[:-1]]\n'], ['        """Find and return critical path after the creation of a directed graph."""\n        if getattr(self, "_critical_path", None) is not None:\n            return self._critical_path\n', "            self._critical_path = [x for x in self.kernel if x.line_number in longest_path[:-1]]\n            return self._critical_path\n"], "R3", "round 5: latency_cp lives on shared instruction forms, a remembered path is returned without re-assigning it"),
+    M("critical_path_kept_in_attribute_is_fine", KDG, '            return [x for x in self.kernel if x.line_number in longest_path[:-1]]\n', "            self._critical_path = [x for x in self.kernel if x.line_number in longest_path[:-1]]\n            return self._critical_path\n", "SILENT", "stored and returned, still recomputed on every call"),
+]
+
+MUTANTS["C11"] += [
+    M("lines_kernel_follows_option_order", CLI, '        kernel = [line for line in parsed_code if line.line_number in line_range]\n', "        forms_by_number = {form.line_number: form for form in parsed_code}\n        kernel = [forms_by_number[n] for n in line_range if n in forms_by_number]\n", "R4", "round 5: repeats and order of the --lines string reach the kernel"),
+    M("lines_membership_in_a_set_is_fine", CLI, '        kernel = [line for line in parsed_code if line.line_number in line_range]\n', "        wanted = set(line_range)\n        kernel = [line for line in parsed_code if line.line_number in wanted]\n", "SILENT", "same lines, file order"),
+    M("lines_lookup_sorted_unique_is_fine", CLI, '        kernel = [line for line in parsed_code if line.line_number in line_range]\n', "        forms_by_number = {form.line_number: form for form in parsed_code}\n        kernel = [forms_by_number[n] for n in sorted(set(line_range)) if n in forms_by_number]\n", "SILENT", "sorted unique numbers = file order"),
+]
